@@ -52,8 +52,9 @@ C04QuickSvcs == {0, 1, 2, 5}
 
 (* ---- C05, quick: loop-control boundaries, clients, ramp-up ---- *)
 C05QuickConfigs ==
-    Mk(IterLoops({0, 1, 2}, {1, 2}), {Unthrottled, Det(1, 1), Poi(1, 1)}, {Single, <<2, 1, 2, 0>>}, {1})
+    Mk(IterLoops({0, 1, 2}, {1, 2}), {Unthrottled, Det(1, 1)}, {Single, <<2, 1, 2, 0>>}, {1})
     \cup Mk(IterLoops({0, 2}, {3}), {Unthrottled, Det(1, 1)}, {Single}, {1})
+    \cup Mk(IterLoops({1}, {2}), {Poi(1, 1)}, {Single, <<2, 1, 2, 0>>}, {1})
     \cup Mk(TimeLoops({0, 1, 2, 3}, {1, 3}), {Unthrottled, Det(1, 1)}, {Single, <<2, 1, 2, 0>>, <<2, 1, 2, 2>>, <<1, 1, 2, 2>>}, {1})
     \cup Mk(TimeLoops({2}, {3}), {Poi(1, 1)}, {<<2, 1, 2, 2>>}, {1})
     \* ramp-up inside a parallel element of two two-client tasks / three tasks
